@@ -419,6 +419,11 @@ def gen_c10(r, tier):
 
 def gen_c15(r, tier):
     clients = gen_clients(r, r.randint(1, 2))
+    if len(clients) > 1 and r.chance(0.5):
+        # each test class configures its own directory for failure files
+        for k, c in enumerate(clients):
+            if r.chance(0.8):
+                c['tmp_dir'] = 'fail%s' % 'AB'[k]
     ops = []
     counter = [0]
     for _ in range(r.weighted([(3, 1), (3, 2), (2, 3), (1, 4)])):
@@ -634,6 +639,7 @@ def build_clients(ctx, clients):
     ctx.classes = {}
     ctx.insts = {}
     ctx.locs = {}
+    ctx.client_tmp = {}
 
     def assert_fn(cond, msg):
         if not cond:
@@ -649,6 +655,19 @@ def build_clients(ctx, clients):
         else:
             cls = type(c['id'], (ctx.classes[base],), {})
         ctx.classes[c['id']] = cls
+        if c.get('tmp_dir'):
+            tp = W.path(c['tmp_dir'])
+            os.makedirs(tp, exist_ok=True)
+            cls.set_defaults(tmp_dir=tp)
+            ctx.client_tmp[c['id']] = tp
+            ctx.stats['probes']['class_with_its_own_tmp_dir'] += 1
+        elif base in ctx.client_tmp:
+            ctx.client_tmp[c['id']] = ctx.client_tmp[base]
+    # every class is configured before any test object is constructed
+    # (unittest builds all TestCase objects before running any set-up)
+    for c in clients:
+        base = c['base']
+        cls = ctx.classes[c['id']]
         locs = dict(ctx.locs[base]['class']) if base in ctx.locs else {}
         for k, d in c['class_locs']:
             p = W.path('ref', d)
@@ -924,7 +943,7 @@ def run_assert(ctx, op):
     apply_stamp(ctx, op, rpaths, apaths)
     mode = ctx.model.lookup(op['kind'])
     roots = [W.path(d) for d in ('ref', 'fail', 'systmp', 'cwd', 'canary',
-                                 'home', 'tmp', 'data')]
+                                 'home', 'tmp', 'data', 'failA', 'failB')]
     before = fsaudit.snapshot(roots)
     fault = None
     read_fault = None
@@ -1278,7 +1297,7 @@ def check_c15(ctx, op, mode, outcome, exc, delta, log, rpaths, apaths,
     W = ctx.W
     if mode is not False:
         return
-    tmp = ctx.tmp_dir
+    tmp = ctx.client_tmp.get(op['client'], ctx.tmp_dir)
     opts = op.get('opts') or {}
     entry = op['op'][7:]
     writes = [(c, p) for c, p in log]
